@@ -10,6 +10,17 @@ func init() {
 // every shape the decoder can hand them, and when the decoder itself fails.
 func VF_C12_unmarshal() {
 	v := vfAny("node", 2)
+	if vfBool("structured") {
+		// a mapping with the keys the Tag unmarshaler looks at, of arbitrary kinds
+		m := map[string]interface{}{}
+		if vfBool("has.name") {
+			m["name"] = vfAny("name", 0)
+		}
+		if vfBool("has.priority") {
+			m["priority"] = vfAny("priority", 0)
+		}
+		v = m
+	}
 	fail := vfBool("decoderFails")
 	cb := func(p interface{}) error {
 		if fail {
